@@ -744,5 +744,19 @@ func builtinPrograms() []*Program {
 			"bank/v1/bank.j5s":     j5s("package bank.v1", "import acct.v1", "", "object Bank {", "  field accounts array:object:acct.v1.Account", "  field kind enum:acct.v1.Kind", "  field legacy object:acct.v1.Legacy", "}"),
 		},
 	})
+
+	// 22. a bundle with ONE invalid package: foo.v1 refers to a dependency type by its full package
+	// name without importing the package. It does not compile - and must not start to compile because
+	// bar.v1, which imports the dependency properly, was compiled on the same set before.
+	out = append(out, &Program{
+		Name:     "builtin/missing_import",
+		Packages: []string{"bar.v1", "both.v1", "foo.v1"},
+		Deps:     []*descriptorpb.FileDescriptorProto{mkMsg("ext/v1/thing.proto", "ext.v1", nil, "Thing")},
+		Files: map[string]string{
+			"foo/v1/foo.j5s":   j5s("package foo.v1", "", "object Foo {", "  field thing object:ext.v1.Thing", "}"),
+			"bar/v1/bar.j5s":   j5s("package bar.v1", "import ext.v1", "", "object Bar {", "  field thing object:ext.v1.Thing", "}"),
+			"both/v1/both.j5s": j5s("package both.v1", "import bar.v1", "", "object Both {", "  field bar object:bar.v1.Bar", "}"),
+		},
+	})
 	return out
 }
